@@ -228,7 +228,55 @@ pub proof fn lemma_triad_orthonormal(a: V3, b: V3, la: real, ln: real, e1: V3, e
     lemma_mul_pos(la, ln);
     lemma_zero_prod(la * ln, vdot(e1, e2));
 }
-/// coordinates of a and b in their own triad:  a = (la, 0, 0),  b = (a.b / la, 0, e3.b)  with  la ln (e3.b) == (a.b)^2 - |a|^2 |b|^2
+/// (p - q) . b == p . b - q . b
+pub proof fn lemma_vdot_sub(p: V3, q: V3, b: V3)
+    ensures vdot(vsub(p, q), b) == vdot(p, b) - vdot(q, b)
+{
+    assert((p.x - q.x) * b.x == p.x * b.x - q.x * b.x) by(nonlinear_arith);
+    assert((p.y - q.y) * b.y == p.y * b.y - q.y * b.y) by(nonlinear_arith);
+    assert((p.z - q.z) * b.z == p.z * b.z - q.z * b.z) by(nonlinear_arith);
+}
+/// coordinates of a in its own triad: (la, 0, 0).  (The vector operations are kept opaque in these lemmas: everything is
+/// congruence plus linear arithmetic over inner products; with the definitions unfolded the query was unstable under other solver seeds.)
+pub proof fn lemma_triad_coords_a(a: V3, b: V3, la: real, ln: real, e1: V3, e2: V3)
+    requires triad_of(a, b, la, ln, e1, e2)
+    ensures vdot(e1, a) == la, vdot(e2, a) == 0real, vdot(vcross(e1, e2), a) == 0real
+{
+    hide(vdot); hide(vscale); hide(vcross);
+    let e3 = vcross(e1, e2);
+    lemma_triad_orthonormal(a, b, la, ln, e1, e2);
+    lemma_cross_orth(a, b); lemma_cross_orth(e1, e2);
+    lemma_vdot_scale(e1, la, e1);
+    lemma_vdot_scale_l(ln, e2, a);
+    lemma_vdot_scale(e3, la, e1);
+    assert(vdot(e1, a) == la * 1real);
+    assert(ln * vdot(e2, a) == 0real);
+    lemma_zero_prod(ln, vdot(e2, a));
+    assert(vdot(e3, a) == la * 0real);
+}
+/// coordinates of b in the triad of (a, b): (a.b / la, 0, e3.b) with (la ln) (e3.b) == (a.b)^2 - |a|^2 |b|^2
+pub proof fn lemma_triad_coords_b(a: V3, b: V3, la: real, ln: real, e1: V3, e2: V3)
+    requires triad_of(a, b, la, ln, e1, e2)
+    ensures vdot(e2, b) == 0real, la * vdot(e1, b) == vdot(a, b),
+        (la * ln) * vdot(vcross(e1, e2), b) == vdot(a, b) * vdot(a, b) - vnorm2(a) * vnorm2(b),
+{
+    hide(vdot); hide(vscale); hide(vcross); hide(vsub);
+    let n = vcross(a, b); let e3 = vcross(e1, e2);
+    lemma_cross_orth(a, b);
+    lemma_vdot_scale_l(ln, e2, b);
+    lemma_vdot_scale_l(la, e1, b);
+    // (la ln) e3 == a x (a x b) == a (a.b) - b (a.a)
+    lemma_cross_scale(la, e1, ln, e2);
+    lemma_bac_cab(a, b);
+    let p = vscale(vdot(a, b), a); let q = vscale(vnorm2(a), b);
+    lemma_vdot_scale_l(la * ln, e3, b);
+    lemma_vdot_scale_l(vdot(a, b), a, b); lemma_vdot_scale_l(vnorm2(a), b, b);
+    lemma_vdot_sub(p, q, b);
+    assert(ln * vdot(e2, b) == 0real);
+    lemma_zero_prod(ln, vdot(e2, b));
+    assert(vscale(la * ln, e3) == vsub(p, q));
+}
+/// coordinates of a and b in their own triad
 pub proof fn lemma_triad_coords(a: V3, b: V3, la: real, ln: real, e1: V3, e2: V3)
     requires triad_of(a, b, la, ln, e1, e2)
     ensures
@@ -238,34 +286,9 @@ pub proof fn lemma_triad_coords(a: V3, b: V3, la: real, ln: real, e1: V3, e2: V3
         (la * ln) * vdot(vcross(e1, e2), b) == vdot(a, b) * vdot(a, b) - vnorm2(a) * vnorm2(b),
         mvec(triad_rows(e1, e2), b) == v3(vdot(e1, b), 0real, vdot(vcross(e1, e2), b)),
 {
-    let n = vcross(a, b); let e3 = vcross(e1, e2);
-    lemma_triad_orthonormal(a, b, la, ln, e1, e2);
-    lemma_cross_orth(a, b); lemma_cross_orth(e1, e2);
-    // e1 . a == la
-    lemma_vdot_scale(e1, la, e1);
-    assert(vdot(e1, a) == la * 1real);
-    // e2 . a == 0, e2 . b == 0
-    lemma_vdot_scale_l(ln, e2, a); lemma_vdot_scale_l(ln, e2, b);
-    lemma_zero_prod(ln, vdot(e2, a)); lemma_zero_prod(ln, vdot(e2, b));
-    // e3 . a == la (e3 . e1) == 0
-    lemma_vdot_scale(e3, la, e1);
-    assert(vdot(e3, a) == la * 0real);
-    // la (e1 . b) == a . b
-    lemma_vdot_scale_l(la, e1, b);
-    // (la ln) e3 == a x (a x b) == a (a.b) - b (a.a)
-    lemma_cross_scale(la, e1, ln, e2);
-    lemma_bac_cab(a, b);
-    let rhs = vsub(vscale(vdot(a, b), a), vscale(vnorm2(a), b));
-    assert(vscale(la * ln, e3) == rhs);
-    lemma_vdot_scale_l(la * ln, e3, b);
-    // rhs . b == (a.b)(a.b) - (a.a)(b.b)
-    lemma_vdot_scale_l(vdot(a, b), a, b); lemma_vdot_scale_l(vnorm2(a), b, b);
-    assert(vdot(rhs, b) == vdot(vscale(vdot(a, b), a), b) - vdot(vscale(vnorm2(a), b), b)) by {
-        let p = vscale(vdot(a, b), a); let q = vscale(vnorm2(a), b);
-        assert(vdot(vsub(p, q), b) == vdot(p, b) - vdot(q, b)) by(nonlinear_arith)
-            requires vdot(vsub(p, q), b) == (p.x - q.x) * b.x + (p.y - q.y) * b.y + (p.z - q.z) * b.z,
-                vdot(p, b) == p.x * b.x + p.y * b.y + p.z * b.z, vdot(q, b) == q.x * b.x + q.y * b.y + q.z * b.z;
-    }
+    hide(vdot); hide(vcross);
+    lemma_triad_coords_a(a, b, la, ln, e1, e2);
+    lemma_triad_coords_b(a, b, la, ln, e1, e2);
 }
 
 /// C17, the geometric core: for congruent triangles (edge vectors a, b and c, d with equal lengths and equal inner product) the
